@@ -379,6 +379,20 @@ let fixed_scenarios : (string * (string * M.node list) list * (string * M.value)
     "apply-fail", [ "main", [ M.NApply (bs "fail7", [], [ text "body"; print (filt (lit_str "x") "spy" []) ]) ] ], [], None;
     "do-and-verbatim", [ "main", [ M.NDo (call "spyfn" [ lit_int 1 ]); M.NVerbatim (bs "raw text"); M.NDo (filt (lit_int 1) "nosuch" []) ] ], [], None;
     "set-in-apply-visible", [ "main", [ M.NApply (bs "upper", [], [ set "q" (lit_str "v"); text "ab" ]); pv "q" ] ], [], None;
+    "new-head-behaviours", [ "main", [
+        print (hash [ ("a", lit_int 1); ("b", call "spyfn" [ lit_int 2 ]); ("a", M.EBin (M.BAdd, lit_int 1, lit_int 2)) ]); text "|";
+        print (M.EUn (M.UNeg, lit_int 0)); print (M.EBin (M.BMul, lit_int 0, M.EUn (M.UNeg, lit_int 1))); print (M.EBin (M.BMod, M.EUn (M.UNeg, lit_int 4), lit_int 2)); text "|";
+        print (filt (lit_int 0) "default" [ lit_str "D" ]); print (filt (M.EBin (M.BSub, lit_int 1, lit_int 1)) "default" [ lit_str "D" ]); print (M.ETest (lit_int 0, bs "empty", [], false)); text "|";
+        print (filt (M.EArr [ lit_int 10; lit_int 9; M.EBin (M.BAdd, lit_int 1, lit_int 1) ]) "sort" []); print (filt (M.EArr [ lit_int 10; lit_str "9"; lit_int 2 ]) "sort" []); text "|";
+        print (filt (var "tm") "merge" [ hash [ ("z", lit_int 1) ] ]); print (filt (hash [ ("z", lit_int 1) ]) "merge" [ var "tm"; var "tss" ]); text "|";
+        print (filt (var "arr") "reverse" []); print (filt (var "arr") "sort" []); print (filt (var "arr") "slice" [ lit_int 1 ]); print (filt (var "arr") "first" []); text "|";
+        pv "pn"; pv "ps"; pv "fn"; print (M.EBin (M.BConcat, var "ps", lit_str "!")); print (M.EBin (M.BEq, var "fn", lit_str "")); text "|";
+        macro "mm" [] [ text "M" ]; print (M.EBin (M.BConcat, call "mm" [], lit_str "x")); print (filt (call "mm" []) "upper" []); print (M.EBin (M.BConcat, var "mm", lit_str "y")); text "|";
+        print (M.EAttr (M.EItem (var "recs", lit_int 0), bs "name")); print (M.EAttr (filt (var "recs") "first" [], bs "name")); print (M.EAttr (M.EArr [ hash [ ("k", lit_str "v") ] ], bs "k"));
+        print (M.EModCall (M.EItem (var "recs", lit_int 0), bs "mm", [])) ] ],
+      [ "tm", M.VMap (M.MIntStr, [ (vint 2, vstr "two"); (vint 10, vstr "ten") ]); "tss", M.VMap (M.MStrStr, [ (vstr "k", vstr "v") ]);
+        "arr", M.VList (M.LArray, [ vint 3; vint 1; vint 2 ]); "pn", M.VPtr None; "ps", M.VPtr (Some (vstr "pointee")); "fn", M.VOpaque (nat_of_int 1);
+        "recs", vlist [ vmap [ ("name", vstr "n0") ] ] ], None;
     "hash-and-items", [ "main", [ set "h" (hash [ ("a", lit_int 1) ]); print (M.EItem (var "h", lit_str "a")); print (attr (var "h") "a"); print (M.EItem (M.EArr [ lit_int 5; lit_int 6 ], lit_str "1"));
                         print (M.EItem (var "ti", M.EBin (M.BAdd, lit_int 0, lit_int 1))); print (M.EItem (var "tm", lit_int 2)); print (attr (var "tss") "k") ] ],
       [ "ti", M.VList (M.LInts, [ vint 4; vint 5 ]); "tm", M.VMap (M.MIntStr, [ (vint 2, vstr "two") ]); "tss", M.VMap (M.MStrStr, [ (vstr "k", vstr "v") ]) ], None ]
